@@ -755,6 +755,8 @@ func corpusValues() []struct {
 		{"triple-subject-id-split", mkT(nodeOf("/a", "x] /y"), immOf("p"), nodeOf("/b", "c"))},
 		{"triple-pred-id-split", mkT(nodeOf("/a", "b"), immOf("x] /y"), nodeOf("/c", "d"))},
 		{"triple-pred-id-space", mkT(nodeOf("/a", "b"), immOf("x y"), nodeOf("/c", "d"))},
+		{"triple-subject-type-formfeed", mkT(nodeOf("/a>\f\"b", "c"), immOf("p"), nodeOf("/d", "e"))},
+		{"triple-subject-type-formfeed-harmless", mkT(nodeOf("/a\fb", "c"), immOf("p"), nodeOf("/d", "e"))},
 		{"triple-obj-pred-type-marker", mkT(nodeOf("/a", "b"), immOf("p"), immOf("x\"^^type:text"))},
 		{"triple-text-delims", mkT(nodeOf("/a", "b"), tmpOf("p", t0), litOf(literal.Text, "] /x> \"y\"@[]"))},
 	}
